@@ -937,7 +937,7 @@ func HarnessC08DestReuse() {
 	for step := 0; step < k; step++ {
 		a := vndChoice(2)
 		if vndChoice(2) == 0 {
-			v := int64(vndInt(-20, 20))
+			v := []int64{-5, 15, 5}[vndChoice(vndParam("VALS", 2))]
 			m[a](ctx, v, aggSets[0])
 			total[a] += v
 			count[a]++
@@ -952,7 +952,7 @@ func HarnessC08DestReuse() {
 			}
 			continue
 		}
-		s := vndChoice(2)
+		s := vndChoice(vndParam("SLOTS", 1))
 		n := c[a](&slots[s])
 		vndReach("collect")
 		if count[a] == 0 {
